@@ -1,2 +1,8 @@
 import Heathcliff.Props.C05
 #print axioms HC.C05.switch_up_refused
+#print axioms HC.C05.switch_steps
+#print axioms HC.C05.bfv_switch_noise
+#print axioms HC.C05.bfv_switch_message
+#print axioms HC.C05.bgv_switch_message
+#print axioms HC.C05.ckks_drop_phase
+#print axioms HC.C05.ckks_rescale_error
